@@ -4,6 +4,6 @@ use parity_scale_codec::{Compact, Decode, Encode};
 pub enum T {
 	#[codec(index = 0)] V0,
 	V1 = 1,
-	#[codec(skip)] #[codec(index = 256)] V2,
+	#[codec(index = 256)] #[codec(skip)] V2,
 }
 fn main() {}
